@@ -457,7 +457,7 @@ def variant_source(kind, source):
                 if any(r not in bound_before and r not in writes for r in reads):
                     continue
                 counter[0] += 1
-                nm = f"_extracted_{fn.name}_{counter[0]}"
+                nm = f"_extracted_{cls_.name}_{fn.name}_{counter[0]}"  # unique in the class family: a same-named helper in a subclass would override this one
                 ret = ast.Return(value=ast.Tuple(elts=[ast.Name(id=o, ctx=ast.Load()) for o in outs], ctx=ast.Load())) if outs else None
                 newf = ast.FunctionDef(name=nm, args=ast.arguments(posonlyargs=[], args=[ast.arg(arg="self")] + [ast.arg(arg=i) for i in ins], kwonlyargs=[], kw_defaults=[], defaults=[]), body=list(blk) + ([ret] if ret else []), decorator_list=[], type_params=[])
                 call = ast.Call(func=ast.Attribute(value=ast.Name(id="self", ctx=ast.Load()), attr=nm, ctx=ast.Load()), args=[ast.Name(id=i, ctx=ast.Load()) for i in ins], keywords=[])
